@@ -863,11 +863,16 @@ impl Transformer {
         OutputList::from([OutputEvent::Start(new_svg)].as_slice()).write_to(writer)
     }
 
-    fn write_auto_styles(&self, events: &mut OutputList, writer: &mut dyn Write) -> Result<()> {
+    fn write_auto_styles(
+        &self,
+        root: &SvgElement,
+        events: &mut OutputList,
+        writer: &mut dyn Write,
+    ) -> Result<()> {
         // Collect the set of elements and classes so relevant styles can be
-        // automatically added.
-        let mut element_set = HashSet::new();
-        let mut class_set = HashSet::new();
+        // automatically added. The root element (already written) counts too.
+        let mut element_set = HashSet::from([root.name.clone()]);
+        let mut class_set: HashSet<String> = root.get_classes().into_iter().collect();
         for output_ev in events.iter() {
             match output_ev {
                 OutputEvent::Start(e) | OutputEvent::Empty(e) => {
@@ -943,7 +948,7 @@ impl Transformer {
             return events.write_verbatim(writer);
         }
 
-        let mut has_svg_element = false;
+        let mut root_element = None;
         let mut empty_root = false;
         if let (pre_svg, Some(first_svg), remain) = events.partition("svg") {
             // Only a root <svg> is given root attributes; one which follows (or is
@@ -953,10 +958,12 @@ impl Transformer {
                 .any(|ev| matches!(ev, OutputEvent::Start(_) | OutputEvent::Empty(_)));
             if is_root {
                 empty_root = matches!(first_svg, OutputEvent::Empty(_));
+                if let OutputEvent::Start(el) | OutputEvent::Empty(el) = &first_svg {
+                    root_element = Some(el.clone());
+                }
                 pre_svg.write_to(writer)?;
                 self.write_root_svg(first_svg, bbox, writer)?;
                 events = remain;
-                has_svg_element = true;
             }
         }
 
@@ -978,8 +985,8 @@ impl Transformer {
 
         // Default behaviour: include auto defs/styles iff we have an SVG element,
         // i.e. this is a full SVG document rather than a fragment.
-        if has_svg_element && self.context.config.add_auto_styles {
-            self.write_auto_styles(&mut events, writer)?;
+        if let (Some(root), true) = (&root_element, self.context.config.add_auto_styles) {
+            self.write_auto_styles(root, &mut events, writer)?;
         }
 
         if empty_root {
